@@ -91,10 +91,14 @@ fn in_process(plan: &Plan) -> Judged {
 			// a dropped (not closed) instance releases the lock only when its spawned close ran
 			let mut pending_drop = false;
 			let mut written = 0u32;
-			let n = rng.range(3, 9);
+			// handles of instances that were closed explicitly but are still held by the caller:
+			// closing them again or dropping them (Drop closes once more) must not disturb the
+			// instance that holds the directory now
+			let mut zombies: Vec<Tree> = Vec::new();
+			let n = rng.range(3, 12);
 			for step in 0..n {
 				let i = rng.below(3) as usize;
-				match rng.below(10) {
+				match rng.below(14) {
 					0..=4 => {
 						// open attempt
 						if slots[i].is_some() {
@@ -180,11 +184,41 @@ fn in_process(plan: &Plan) -> Judged {
 								fail(&mut j, "close_failed", e.to_string());
 								return;
 							}
-							drop(t);
+							if rng.chance(1, 2) {
+								zombies.push(t);
+								j.count("closed_handles_kept", 1);
+							} else {
+								drop(t);
+							}
 							if holder == Some(i) {
 								holder = None;
 							}
 							j.count("closes", 1);
+						}
+					}
+					10 => {
+						// idle: let spawned work (the close a dropped handle spawns) run
+						for _ in 0..3 {
+							tokio::task::yield_now().await;
+							tokio::time::advance(std::time::Duration::from_millis(60)).await;
+						}
+						j.count("idles", 1);
+					}
+					11 | 12 => {
+						// a handle closed earlier is closed again / dropped
+						if !zombies.is_empty() {
+							let z = zombies.remove(rng.below(zombies.len() as u64) as usize);
+							if rng.chance(1, 2) {
+								let _ = z.close().await;
+								zombies.push(z);
+								j.count("closed_again", 1);
+							} else {
+								drop(z);
+								for _ in 0..3 {
+									tokio::task::yield_now().await;
+								}
+								j.count("closed_handle_dropped", 1);
+							}
 						}
 					}
 					_ => {
@@ -211,6 +245,7 @@ fn in_process(plan: &Plan) -> Judged {
 					let _ = t.close().await;
 				}
 			}
+			zombies.clear();
 			for _ in 0..5 {
 				tokio::task::yield_now().await;
 			}
@@ -375,8 +410,8 @@ pub fn c19() -> CheckDef {
 		assumptions: &["in-process 'death' is not simulated; process death is covered by the SIGKILL legs", "the lock file's informational PID content is not judged"],
 		components: "real: lockfile (fs2 flock), Tree open / close / Drop, tokio runtime; simulated: opener order, runtime turns, disk op log; stubbed: nothing",
 		cases: |t| match t {
-			Tier::Quick => 2000,
-			Tier::Thorough => 20000,
+			Tier::Quick => 12000,
+			Tier::Thorough => 120000,
 		},
 		gen,
 		judge,
